@@ -625,7 +625,7 @@ def r6_6(run):
                     if x[0] == "idx" and len(x[2]) == 1 and x[2][0][0] == "c" and x[2][0][1] in refcols and _is_net_table(x[1]):
                         n_lab += 1
     run.stat("label_terms_seen", n_lab)
-    run.ob("label-arithmetic|functions-scanned", n_fn >= 400 and n_lab >= 20,
+    run.ob("label-arithmetic|functions-scanned", n_fn >= 400 and n_lab >= 8,
            "functions scanned: %d, label-valued terms seen: %d" % (n_fn, n_lab), "src/pandapipes")
     run.floor(1)
 
